@@ -254,6 +254,23 @@ def apply_edit(model, edit):
         names = set(edit['names'])
         new = Parameters.create([p for p in model.parameters if p.name not in names])
         return model.replace(parameters=new).update_source()
+    if op == 'compound':       # value changes + removals + additions in ONE update_source
+        ch = {c['name']: c for c in edit['changes']}
+        gone = set(edit['remove'])
+        new = []
+        for p in model.parameters:
+            if p.name in gone:
+                continue
+            if p.name in ch:
+                c = ch[p.name]
+                new.append(Parameter.create(p.name, fl(c['init']), lower=fl(c['lower']), upper=fl(c['upper']),
+                                            fix=c['fix']))
+            else:
+                new.append(p)
+        for a in edit['add']:
+            new.append(Parameter.create(a['name'], fl(a['init']), lower=fl(a['lower']), upper=fl(a['upper']),
+                                        fix=a['fix']))
+        return model.replace(parameters=Parameters.create(new)).update_source()
     if op == 'replace':        # remove some thetas and add a new one in ONE update_source
         names = set(edit['names'])
         lo = fl(edit['lower'])
@@ -364,6 +381,12 @@ def intended_new_thetas(cur, edit):
                                     fix=edit['fix'])]
     elif op == 'remove':
         ps = [p for p in ps if p.name not in set(edit['names'])]
+    elif op == 'compound':
+        ch = {c['name']: c for c in edit['changes']}
+        ps = [Parameter(p.name, fl(ch[p.name]['init']), fl(ch[p.name]['lower']), fl(ch[p.name]['upper']),
+                        ch[p.name]['fix']) if p.name in ch else p for p in ps if p.name not in set(edit['remove'])]
+        ps += [Parameter.create(a['name'], fl(a['init']), lower=fl(a['lower']), upper=fl(a['upper']), fix=a['fix'])
+               for a in edit['add']]
     elif op == 'replace':
         ps = [p for p in ps if p.name not in set(edit['names'])] + [
             Parameter.create(edit['name'], fl(edit['init']), lower=fl(edit['lower']), upper=fl(edit['upper']),
@@ -484,7 +507,7 @@ def gen_theta_edit(rng, model, step):
     ths = thetas_of(model.parameters, model.random_variables)
     vals = [float(Fraction(v)) for v in VALS]
     ops = ['init', 'init', 'lower', 'upper', 'fix', 'unfix', 'fixto', 'unconstrain', 'multi', 'multi', 'add', 'remove',
-           'replace']
+           'replace', 'compound', 'compound', 'compound']
     for _ in range(20):
         op = rng.choice(ops)
         if not ths and op != 'add':
@@ -500,6 +523,34 @@ def gen_theta_edit(rng, model, step):
             if name in model.parameters.names:
                 continue
             return {'op': 'add', 'name': name, 'init': ftxt(ini), 'lower': ftxt(lo), 'upper': ftxt(up), 'fix': fix}
+        if op == 'compound':
+            if len(ths) < 3:
+                continue
+
+            def newvals():
+                lo, ini, up = sorted(rng.sample(vals, 3))
+                fix = rng.random() < 0.3
+                if ini == 0:
+                    fix = True
+                lo = lo if rng.random() < 0.5 else -math.inf
+                up = up if rng.random() < 0.4 else math.inf
+                return {'init': ftxt(ini), 'lower': ftxt(lo), 'upper': ftxt(up), 'fix': fix}
+            nrem = rng.choice([1, 1, 2]) if len(ths) > 3 else 1
+            victims = rng.sample(ths, nrem)
+            rest = [p for p in ths if p not in victims]
+            # a run of consecutive survivors gets new values (often in front of a removed theta of the same record)
+            i = rng.randrange(len(rest))
+            run = rest[i:i + rng.choice([1, 2, 2, 3])]
+            if rng.random() < 0.5:
+                j = max(0, ths.index(victims[0]) - rng.choice([1, 2, 3]))
+                run = [p for p in ths[j:ths.index(victims[0])] if p not in victims] or run
+            changes = [dict(name=q.name, **newvals()) for q in run]
+            adds = []
+            for k in range(rng.choice([0, 0, 1, 2])):
+                nm = rng.choice(['POP_C', 'TVC', 'THETA_7']) + str(step) + str(k)
+                if nm not in model.parameters.names:
+                    adds.append(dict(name=nm, **newvals()))
+            return {'op': 'compound', 'changes': changes, 'remove': sorted(p.name for p in victims), 'add': adds}
         if op == 'replace':
             if len(ths) < 2:
                 continue
@@ -930,4 +981,214 @@ def gen_rv_edit(rng, model):
                 return {'op': 'ofix', 'names': [p.name for p in ps]}
             if op == 'ounfix' and ps[0].fix:
                 return {'op': 'ounfix', 'names': [p.name for p in ps]}
+    return None
+
+
+# ================================================================== structural random-effect histories (oracle only)
+HIST_DATA = None
+
+
+def hist_data_path():
+    global HIST_DATA
+    if HIST_DATA is None:
+        from harness.lib.core import BUILD
+        d = BUILD / 'gen' / 'C04'
+        d.mkdir(parents=True, exist_ok=True)
+        p = d / 'hist.csv'
+        text = 'ID,TIME,DV,OCC\n' + ''.join(f'{i},{t},{i + t}.5,{1 + (t > 1)}\n' for i in (1, 2, 3) for t in (0, 1, 2, 3))
+        if not p.exists() or p.read_text() != text:
+            p.write_text(text)
+        HIST_DATA = str(p)
+    return HIST_DATA
+
+
+ABBR_NAMES = ['ETA_CL', 'ETA_VC', 'ETA_KA', 'ETA_Q', 'ETA_MAT']
+
+
+def hist_model_code(omegas, sigmas, ne, ns, abbr):
+    lines = [f"P{i} = THETA(1)*EXP(" + (ABBR_NAMES[i - 1] if abbr else f"ETA({i})") + ")" for i in range(1, ne + 1)]
+    lines += ["Q1 = THETA(1)", "Q2 = THETA(1)"]
+    y = ' + '.join([f'P{i}' for i in range(1, ne + 1)] + ['Q1', 'Q2'] + [f'EPS({i})' for i in range(1, ns + 1)])
+    ab = ''.join(f'$ABBR REPLACE {ABBR_NAMES[i - 1]}=ETA({i})\n' for i in range(1, ne + 1)) if abbr else ''
+    return (f"$PROBLEM\n$INPUT ID TIME DV OCC\n$DATA {hist_data_path()} IGNORE=@\n{ab}$PRED\n" + '\n'.join(lines)
+            + f"\nY = {y}\n$THETA 1\n" + omegas + sigmas + TAIL)
+
+
+LEVELS = {'IIV': 0, 'IOV': 1, 'RUV': 2}
+
+
+def hdists_term(model):
+    items = []
+    for sigma, dists in ((False, list(model.random_variables.etas)), (True, list(model.random_variables.epsilons))):
+        base = 1
+        seen = {}
+        for d in dists:
+            k = len(d)
+            ps = []
+            v = d.variance
+            for r in range(k):
+                for c in range(r + 1):
+                    p = model.parameters[str(v) if k == 1 else str(v[r, c])]
+                    pos = seen.setdefault(p.name, (base + r, base + c))
+                    ps.append(ct.tup(text_term(p.name), ct.pair(ct.q(Fraction(float(p.init))), ct.boolean(p.fix)),
+                                     ct.pair(ct.nat(pos[0]), ct.nat(pos[1]))))
+            items.append(f"(mkHD {ct.lst([text_term(n) for n in d.names])} {LEVELS[d.level.upper()]}%nat "
+                         f"{ct.boolean(sigma)} {ct.lst(ps)})")
+            base += k
+    return ct.lst(items)
+
+
+def hist_snapshot(model):
+    out = []
+    for dists in (list(model.random_variables.etas), list(model.random_variables.epsilons)):
+        for d in dists:
+            v = d.variance
+            k = len(d)
+            ps = [model.parameters[str(v) if k == 1 else str(v[r, c])] for r in range(k) for c in range(r + 1)]
+            out.append((tuple(d.names), d.level, tuple((p.name, p.init, p.fix) for p in ps)))
+    return out
+
+
+def apply_hist_op(model, op):
+    from pharmpy import modeling as md
+    k = op['op']
+    if k == 'joint':
+        return md.create_joint_distribution(model, op['etas'])
+    if k == 'split':
+        return md.split_joint_distribution(model, op['etas'])
+    if k == 'remove_iiv':
+        return md.remove_iiv(model, op['etas'])
+    if k == 'add_iiv':
+        return md.add_iiv(model, [op['q']], 'exp')
+    if k == 'add_iov':
+        return md.add_iov(model, 'OCC', list_of_parameters=op['ps'])
+    if k == 'remove_iov':
+        return md.remove_iov(model)
+    if k == 'unfix':
+        return md.unfix_parameters(model, op['names'])
+    if k == 'fix':
+        return md.fix_parameters(model, op['names'])
+    if k == 'init':
+        return md.set_initial_estimates(model, {op['name']: fl(op['v'])})
+    raise ValueError(k)
+
+
+def observe_hist_step(cur, op):
+    from pharmpy.modeling import read_model_from_string
+    info = {'edit': op['op']}
+    cs = cur.internals.control_stream
+    om_recs = list(cs.get_records('OMEGA'))
+    si_recs = list(cs.get_records('SIGMA'))
+    before = [r.root for r in om_recs + si_recs]
+    old_etas = list(cur.random_variables.etas)
+    old_eps = list(cur.random_variables.epsilons)
+    try:
+        edited = apply_hist_op(cur, op)
+        status = 0
+    except ValueError as e:
+        edited, status = None, 1
+        info['edit_error'] = f'ValueError: {str(e)[:100]}'
+    except Exception as e:
+        edited, status = None, 2
+        info['edit_error'] = f'{type(e).__name__}: {str(e)[:100]}'
+    # which random effects lose their distribution (for a crash: those the operation names)
+    gone = []
+    if edited is not None:
+        new_rvs = edited.random_variables
+        idx = 0
+        for d in old_etas:
+            for n in d.names:
+                if d not in new_rvs:
+                    gone.append(idx)
+                idx += 1
+        idx = 1000
+        for d in old_eps:
+            for n in d.names:
+                if d not in new_rvs:
+                    gone.append(idx)
+                idx += 1
+    else:
+        names = [n for d in old_etas for n in d.names]
+        for n in op.get('etas', []):
+            if n in names:
+                gone.append(names.index(n))
+    rr = 'None'
+    mem = '[]'
+    if edited is not None:
+        mem = hdists_term(edited)
+        code = edited.code
+        info['code'] = code
+        try:
+            rm = read_model_from_string(code)
+            rr = '(Some (ROk ' + hdists_term(rm) + '))'
+            a, b = hist_snapshot(rm), hist_snapshot(edited)
+            info['consistent'] = (a == b)
+            info['chain_ok'] = [(x[0], x[1], len(x[2])) for x in a] == [(x[0], x[1], len(x[2])) for x in b]
+            dev = 0.0
+            if len(a) == len(b) and all(len(x[2]) == len(y[2]) for x, y in zip(a, b)):
+                for x, y in zip(a, b):
+                    for p, q in zip(x[2], y[2]):
+                        dev = max(dev, abs(p[1] - q[1]) / max(abs(q[1]), 1e-300))
+                info['max_rel_dev'] = dev
+        except Exception as e:
+            rr = '(Some (RErr ' + str(err_kind(e)) + '))'
+            info['reread_error'] = f'{type(e).__name__}: {str(e)[:100]}'
+            info['consistent'] = False
+    term = ("(CHist (mkHS " + ct.lst([node_term(r) for r in before]) + " " + ct.lst([ct.nat(g) for g in gone]) + " "
+            + ct.nat(len(om_recs)) + f" {status}%nat " + mem + " " + rr + "))")
+    return term, info, edited
+
+
+def gen_hist_op(rng, m):
+    etas = m.random_variables.etas
+    names = etas.names
+    for _ in range(20):
+        k = rng.choice(['joint', 'joint', 'joint', 'split', 'remove_iiv', 'add_iiv', 'add_iov', 'remove_iov', 'unfix',
+                        'fix', 'init'])
+        iiv = [n for d in etas for n in d.names if d.level == 'IIV']
+        if k == 'joint':
+            if len(iiv) < 2:
+                continue
+            es = rng.sample(iiv, rng.choice([2, 2, 3]) if len(iiv) >= 3 else 2)
+            if rng.random() < 0.6:
+                es = sorted(es, key=names.index)
+            return {'op': 'joint', 'etas': es}
+        if k == 'split':
+            js = [d for d in etas if len(d) > 1 and d.level == 'IIV']
+            if not js:
+                continue
+            d = rng.choice(js)
+            return {'op': 'split', 'etas': rng.sample(list(d.names), rng.randrange(1, len(d) + 1))}
+        if k == 'remove_iiv':
+            if len(iiv) < 2:
+                continue
+            return {'op': 'remove_iiv', 'etas': [rng.choice(iiv)]}
+        if k == 'add_iiv':
+            q = rng.choice(['Q1', 'Q2'])
+            if any(str(s.symbol) == q and 'ETA' in str(s.expression) for s in m.statements):
+                continue
+            return {'op': 'add_iiv', 'q': q}
+        if k == 'add_iov':
+            if any(d.level == 'IOV' for d in etas) or not iiv:
+                continue
+            eta_syms = set(etas.free_symbols) | {s for n in names for s in [__import__('pharmpy').basic.Expr.symbol(n)]}
+            cand = [str(s.symbol) for s in m.statements
+                    if str(s.symbol) in ('P1', 'P2', 'P3') and s.expression.free_symbols & eta_syms]
+            if not cand:
+                continue
+            return {'op': 'add_iov', 'ps': [rng.choice(cand)]}
+        if k == 'remove_iov':
+            if not any(d.level == 'IOV' for d in etas) or not iiv:
+                continue
+            return {'op': 'remove_iov'}
+        if k in ('unfix', 'fix'):
+            d = rng.choice(list(etas))
+            pn = list(d.parameter_names)
+            if k == 'unfix' and any(m.parameters[n].init == 0 for n in pn):
+                continue
+            return {'op': k, 'names': pn}
+        if k == 'init':
+            d = rng.choice(list(etas))
+            pn = str(d.variance) if len(d) == 1 else str(d.variance[0, 0])
+            return {'op': 'init', 'name': pn, 'v': ftxt(m.parameters[pn].init * rng.choice([1.5, 2, 4]))}
     return None
